@@ -324,6 +324,7 @@ impl<'a, 'tcx> Ex<'a, 'tcx> {
                 if e.span.from_expansion() {
                     // e.g. the `true` / `false` produced by `cfg!(..)`
                     o.put("expn", expn_j(e.span));
+                    o.put("expn_chain", expn_chain_j(e.span));
                 }
                 o.put("ty", ty_j(tcx, e.ty));
                 o
